@@ -281,11 +281,15 @@ func VerifyCosmosHeader(myHeader *CosmosHeader, info *CosmosEpochSwitchInfo) err
 		return fmt.Errorf("VerifyCosmosHeader, the size of precommits is not right!")
 	}
 	talliedVotingPower := int64(0)
-	for _, commitSig := range myHeader.Commit.Precommits {
+	for pos, commitSig := range myHeader.Commit.Precommits {
 		if commitSig == nil {
 			continue
 		}
 		idx := commitSig.ValidatorIndex
+		if idx != pos {
+			// precommits are positional: one slot per validator, so no validator is tallied twice
+			return fmt.Errorf("VerifyCosmosHeader, precommit in slot %d carries validator index %d", pos, idx)
+		}
 		_, val := valset.GetByIndex(idx)
 		if val == nil {
 			return fmt.Errorf("VerifyCosmosHeader, validator %d doesn't exist!", idx)
